@@ -10,6 +10,7 @@ use std::fmt::Write as _;
 use std::io::Write as _;
 use std::panic::{catch_unwind, AssertUnwindSafe};
 
+mod deep;
 mod gen;
 use gen::*;
 
@@ -548,6 +549,8 @@ fn usage() -> ! {
     eprintln!("usage: harness gen --streams a,b,c --tier quick|thorough --seed N --out FILE [--summary FILE]");
     eprintln!("       harness lines --in FILE --out FILE     (re-evaluate the request part of stored lines)");
     eprintln!("       harness timing --out FILE");
+    eprintln!("       harness deep --out FILE [--tier quick|thorough] [--limit SECS]   (large operands, one child per family)");
+    eprintln!("       harness deep-one FAMILY N | deep-input FAMILY N");
     std::process::exit(2)
 }
 
@@ -619,6 +622,23 @@ fn main() {
             let out = get("--out").unwrap_or_else(|| usage());
             let s = gen::timing();
             std::fs::write(out, s).unwrap();
+        }
+        "deep" => {
+            let out = get("--out").unwrap_or_else(|| usage());
+            let tier = get("--tier").unwrap_or("quick".into());
+            let limit: u64 = get("--limit").and_then(|s| s.parse().ok()).unwrap_or(120);
+            let s = deep::run_all(tier == "thorough", std::time::Duration::from_secs(limit));
+            std::fs::write(out, s).unwrap();
+        }
+        "deep-one" => {
+            let fam = args.get(2).cloned().unwrap_or_else(|| usage());
+            let n: usize = args.get(3).and_then(|s| s.parse().ok()).unwrap_or_else(|| usage());
+            std::process::exit(deep::run_child(&fam, n));
+        }
+        "deep-input" => {
+            let fam = args.get(2).cloned().unwrap_or_else(|| usage());
+            let n: usize = args.get(3).and_then(|s| s.parse().ok()).unwrap_or_else(|| usage());
+            print!("{}", deep::input(&fam, n));
         }
         _ => usage(),
     }
